@@ -130,7 +130,7 @@ __CPROVER_requires(XV_FD_OURS(fd) && __CPROVER_r_ok(opts, sizeof(*opts)))
 __CPROVER_assigns(xv_errno, xv_eff, xv_pre, xv_fail, xv_arow)
 __CPROVER_ensures(__CPROVER_return_value == 0 || (__CPROVER_return_value == -1 && XV_ERRNO_OK(xv_errno)))
 __CPROVER_ensures(xv_eff_n == __CPROVER_old(xv_eff_n) + 1 && xv_eff_fd == fd && xv_eff_rc == __CPROVER_return_value && xv_eff_opts == (const void *)opts)
-__CPROVER_ensures(xv_pre_bind_fd == -1 && xv_pre_eff_fd == ((__CPROVER_return_value == 0 && opts == &XT->tcp_opts) ? fd : -1))
+__CPROVER_ensures(!xv_tcn_top && xv_pre_bind_fd == -1 && xv_pre_eff_fd == ((__CPROVER_return_value == 0 && opts == &XT->tcp_opts) ? fd : -1))
 __CPROVER_ensures(XV_UPD(xv_fail_n, __CPROVER_return_value < 0, __CPROVER_old(xv_fail_n) + 1) && XV_UPD(xv_fail_errno, __CPROVER_return_value < 0, xv_errno))
 __CPROVER_ensures(XV_UPD(xv_att_begun, XT->ip_idx == xv_ai, __CPROVER_old(xv_att_begun) + 1))
 __CPROVER_ensures(XV_UPD(xv_att_failed, XT->ip_idx == xv_ai && __CPROVER_return_value < 0, __CPROVER_old(xv_att_failed) + 1))
@@ -278,6 +278,16 @@ __CPROVER_requires(TRK_IPS_FRESH(track))
 __CPROVER_requires(TRK_LOCAL_FRESH(track))
 __CPROVER_requires(TRK_REQUIRES_REST(track))
 __CPROVER_requires(track->state == track_state_connecting && track->fd_reg_id == -1 && track->timer_id == -1)
+#ifdef XV_TCN_I0
+/* CASE SPLIT of job dnstc.track_connect_next@iNN (one variant per start index -1..31; the union is every index TRK_IDX_OK admits).
+ * The address loop is closed by unwinding; started from a SYMBOLIC index every unwound iteration reads the list at a symbolic
+ * offset and the proof costs O(n^2) (4 minutes for n = 32); from a CONSTANT index it is linear (seconds).  Only the TOP call of
+ * a variant is pinned to its index: xv_tcn_top is set by the harness and cleared by the first tcp_opts_effectuate, so the
+ * recursive calls are checked against, and replaced by, the general contract.  Jobs that replace track_connect_next do not
+ * define XV_TCN_I0: they use the general contract, which is what the variants together establish (induction on the number
+ * of addresses left). */
+__CPROVER_requires(xv_tcn_top ==> (track->ip_idx >= XV_TCN_I0 && track->ip_idx <= XV_TCN_I1))
+#endif
 __CPROVER_assigns(TRK_ASSIGNS(track), TCN_GHOST_ASSIGNS)
 /* PO[C13] track_connect_next.outcome */
 __CPROVER_ensures(TCN_STATE(track))
